@@ -1,2 +1,3 @@
 import CrsProps.C13
 import CrsProps.C14
+import CrsProps.C09
